@@ -11,6 +11,8 @@
 (*    stmts |-> Seq(stmt)]                                                 *)
 (* a statement is                                                          *)
 (*   [name |-> STRING, rt |-> "" | "R" | "U"   rooting token [&R] / [&U]   *)
+(*    sym  |-> "label" | "number"  how the leaves name their taxa where    *)
+(*                           the block has no TRANSLATE table              *)
 (*    w    |-> <<num, den>>  tree weight token [&W n/d], <<0,0>> = none    *)
 (*    cpre |-> Seq(comment)  between the TREE keyword and '='              *)
 (*    cpost|-> Seq(comment)  between '=' and the tree (with rt and w)      *)
@@ -22,7 +24,8 @@
 (* a comment is [m |-> BOOLEAN, k |-> STRING, v |-> STRING]: plain text k, *)
 (* or (m) the metadata comment [&k=v].                                     *)
 (* a CHARACTERS block is [kind |-> "chars", title |-> STRING,              *)
-(*   rows |-> Seq([lab, seq])] (taxon label and its row of symbols).       *)
+(*   rows |-> Seq([lab, seq])] (taxon label and its row of symbols); a     *)
+(* SETS block is [kind |-> "sets", link, charsets |-> Seq([name, spec])].  *)
 (* Newick = one block, statements without names; NeXML = the id-linked     *)
 (* equivalent (no weights, no comments, rooting token = root attribute).   *)
 (*                                                                         *)
